@@ -2,6 +2,7 @@
 """seed_keep.py <seed-dir> <name> '<RESULT line>' : stores a confirmed seeded change under /verif/seeded/<name>/"""
 import sys, json, os, shutil
 sd, name, result = sys.argv[1], sys.argv[2], sys.argv[3]
+note = sys.argv[4] if len(sys.argv) > 4 else ''
 dst = '/verif/seeded/' + name
 os.makedirs(dst, exist_ok=True)
 for f in ('patch.diff', 'demo_test.go'):
@@ -11,5 +12,7 @@ m['confirmed_by_me'] = {
     'how': 'tools/seed_eval.sh: fresh scratch worktree of /repo HEAD; demo copied to demo_dir/zz_seed_demo_test.go and run (must pass); patch applied, go build ./..., demo run again (must fail); whole suite with the patch where noted; then patch applied to /repo, quick check run, /repo reverted',
     'result': result,
 }
+if note:
+    m['confirmed_by_me']['note'] = note
 json.dump(m, open(os.path.join(dst, 'meta.json'), 'w'), indent=1)
 print('kept', dst)
